@@ -134,6 +134,7 @@ fn case() -> impl Strategy<Value = Case> {
 
 fn run(ctx: &Ctx) -> Report {
     let mut rep = Report::new(RULE);
+    rep.assume(&prog::budget_note());
     rep.assume("the destination's flush() is the moment 'a flush has returned'; the snapshot is exactly the bytes written to the destination so far");
     explore(&mut rep, ctx, "flush-snapshots", if SCALED { ctx.n(8_000, 200_000) } else { ctx.n(150, 3_000) }, case, oracle);
     rep
